@@ -32,6 +32,32 @@ pub(crate) fn skip_optimize() -> bool {
     std::env::var_os("SWAY_VERIF_NO_ASM_OPT").is_some_and(|v| v == "1")
 }
 
+/// `SWAY_VERIF_ASM_OPT_SKIP=<pass>,<pass>,…` (names of [`PASSES`]`[..7]`): every `Opt0` application of
+/// `optimize` leaves these passes out (to find the pass responsible for a behaviour difference).
+pub(crate) fn skip_list() -> Option<Vec<String>> {
+    let v = std::env::var("SWAY_VERIF_ASM_OPT_SKIP").ok()?;
+    let l: Vec<String> = v.split(',').map(|s| s.trim().to_string()).filter(|s| !s.is_empty()).collect();
+    (!l.is_empty()).then_some(l)
+}
+
+/// One `Opt0` application of the seven passes, in the order of `optimize`, without those in `skip`.
+pub(crate) fn optimize0_skipping(
+    mut set: AbstractInstructionSet,
+    ds: &DataSection,
+    skip: &[String],
+) -> AbstractInstructionSet {
+    for pass in &PASSES[..7] {
+        if skip.iter().any(|s| s == pass) {
+            continue;
+        }
+        set = match apply(pass, set.clone(), ds) {
+            Ok(s) => s,
+            Err(_) => set,
+        };
+    }
+    set
+}
+
 /// Names of the passes accepted by [`run_pass`], in the order `optimize` applies them, followed
 /// by the two levels of the whole `optimize`.
 pub const PASSES: [&str; 9] = [
